@@ -291,6 +291,14 @@ fn mmap(
     fd: libc::c_int,
     offset: libc::off_t,
 ) -> io::Result<ptr::NonNull<libc::c_void>> {
+    #[cfg(a10_verif)]
+    if let Some(kernel) = crate::verif::kernel() {
+        return match unsafe { (kernel.mmap)(len, prot, flags, fd, offset) } {
+            libc::MAP_FAILED => Err(io::Error::last_os_error()),
+            // SAFETY: mmap ensures the pointer is not null.
+            addr => Ok(unsafe { ptr::NonNull::new_unchecked(addr) }),
+        };
+    }
     let addr = match unsafe { libc::mmap(ptr::null_mut(), len, prot, flags, fd, offset) } {
         libc::MAP_FAILED => return Err(io::Error::last_os_error()),
         // SAFETY: mmap ensures the pointer is not null.
@@ -309,6 +317,13 @@ fn mmap(
 
 /// `munmap(2)` wrapper.
 pub(crate) fn munmap(addr: ptr::NonNull<libc::c_void>, len: libc::size_t) -> io::Result<()> {
+    #[cfg(a10_verif)]
+    if let Some(kernel) = crate::verif::kernel() {
+        return match unsafe { (kernel.munmap)(addr.as_ptr(), len) } {
+            0 => Ok(()),
+            _ => Err(io::Error::last_os_error()),
+        };
+    }
     match unsafe { libc::munmap(addr.as_ptr(), len) } {
         0 => Ok(()),
         _ => Err(io::Error::last_os_error()),
